@@ -122,6 +122,27 @@ fn band<T: Sc>(t: &mut Toks, cx: &mut Ctx, to_q: Option<fn(&T) -> Option<Q>>) ->
         }
     }
     if rhs.size() != n { cx.check(matches!(&sv, Err("size")), "solve accepted a right-hand side of the wrong length"); }
+    // floats without an exact oracle (Complex<f64>, general-magnitude f64): if an independent reference elimination with
+    // partial pivoting on the dense twin meets a non-zero pivot at every step, the system is one elimination can solve in this
+    // arithmetic: the banded solver must return a finite vector with a normwise backward error of the order of machine epsilon
+    let exact_available = d.iter().all(|row| row.iter().all(|z| conv(z).is_some())) && rhs.vec.iter().all(|z| conv(z).is_some());
+    if !T::is_exact() && !exact_available && rhs.size() == n && n > 0 {
+        let mags: Vec<f64> = d.iter().flat_map(|r| r.iter().map(|z| z.mag64())).chain(rhs.vec.iter().map(|z| z.mag64())).collect();
+        let window = mags.iter().all(|m| m.is_finite() && (*m == 0.0 || (*m >= 1e-100 && *m <= 1e100)));
+        let solvable = window && !guarded(|| { let mut dm = Matrix::<T>::new(n, n, T::zero()); for r in 0..n { for c in 0..n { dm[(r, c)] = d[r][c]; } } crate::c01::ref_zero_pivot_column(&dm) }).unwrap_or(true);
+        if solvable {
+            match &sv {
+                Err(c) => cx.fail(format!("solve panicked ({}) on a system the reference elimination solves", c)),
+                Ok(u) => { let fin = u.vec.iter().all(|z| z.finite());
+                    cx.check(fin, "solve: non-finite solution on a system the reference elimination solves");
+                    if fin && u.size() == n {
+                        let an = (0..n).map(|r| (0..n).map(|c| d[r][c].mag64()).sum::<f64>()).fold(0.0, f64::max); let un = u.vec.iter().map(|z| z.mag64()).fold(0.0, f64::max);
+                        let mut rn = 0.0f64; for r in 0..n { let mut acc = T::zero(); for c in 0..n { acc += d[r][c] * u[c]; } rn = rn.max((acc - rhs[r]).mag64()); }
+                        let bn = rhs.vec.iter().map(|z| z.mag64()).fold(0.0, f64::max);
+                        if rn.is_finite() && (an * un + bn).is_finite() { cx.check(rn <= 1e-11 * (an * un + bn) + 1e-300, &format!("solve: backward error {:e} too large (no exact oracle: reference elimination solvable)", rn / (an * un + bn + 1e-300))); } } }
+            }
+        }
+    }
     out
 }
 
